@@ -146,6 +146,27 @@ def gen_multi(seed_i, mode, tier):
                 if other["role"] == "reader":
                     other["config"] = cfg
                 scn["share_config"] = True
+    if kn.random() < 0.08:
+        # two readers over the same merchant strings whose configurations differ ONLY in the DE43 regex
+        import copy as _copy
+        sub = Streams(sub_seed(seed_i, "de43pair"))
+        wl = sub["workload"]
+        cfg_a = _copy.deepcopy(msgcodec.packaged_bit_config())
+        cfg_b = _copy.deepcopy(cfg_a)
+        cfg_b["43"]["field_processor_config"] = msggen.DE43_REGEX_B
+        msgs = []
+        for _ in range(wl.randint(2, 5)):
+            m = msggen.gen_message(wl, cfg_a, "latin_1", 2000)
+            m["DE43"] = msggen.gen_field_value(wl, {"field_type": "LLVAR", "field_length": 0, "field_processor": "DE43"}, "latin_1")
+            msgs.append(msgcodec.msg_to_json(m))
+        blocked = kn.random() < 0.5
+        pair = []
+        for cfg in (cfg_a, cfg_b):
+            w = {"role": "writer", "cls": "IpmWriter", "blocked": blocked, "encoding": "latin_1", "config": cfg, "messages": msgs}
+            pair.append({"role": "reader", "cls": "IpmReader", "blocked": blocked, "encoding": "latin_1", "config": cfg, "image_from": w})
+        scn["actors"] = pair + scn["actors"][:1]
+        scn["de43_pair"] = True
+        n = len(scn["actors"])
     sc = st["schedule"]
     if mode == "op":
         # number of ops per actor is known from the specs (writers: items + close; readers: records + 1)
@@ -306,6 +327,8 @@ def run_task(task):
                 c["probe:run_with_a_reader_on_a_faulted_image"] += 1
             if scn.get("share_config"):
                 c["probe:run_with_instances_sharing_one_config_object"] += 1
+            if scn.get("de43_pair"):
+                c["probe:run_with_two_readers_differing_only_in_the_DE43_regex"] += 1
             if len(scn["actors"]) >= 17:
                 c["probe:run_with_17_or_more_instances"] += 1
             if any(a.get("poisoned") for a in scn["actors"]):
